@@ -268,6 +268,7 @@ AltSteps(k, c, s) ==
     [] s.t = "wrongPassword"  -> << [op |-> "wrongpw", pws |-> HexSeq(WrongPws(Pw(c.pwc))), sweepbase |-> "7a", sweep |-> c.sweep] >>
     [] s.t = "wrongUnwrapKey" -> << [op |-> "wrongkey", d |-> Hx!FromBytes(Scalar("sm2", OtherCls(c.papi)))] >>
     [] s.t = "injected"       -> << [op |-> "inject", cls |-> s.cls, d |-> Hx!FromBytes(Scalar(k.kind, s.cls)), neg |-> (s.cls = "negative")] >>
+    [] s.t = "reencoded"      -> << [op |-> "reencode", form |-> "stripzeros"] >>
     [] OTHER                  -> << >>
 AllowedSeq(A) == SelectSeq(<<"Same", "Err", "Different">>, LAMBDA o : o \in A)
 TraceOf(k, c, s) ==
@@ -293,6 +294,7 @@ Next ==
   \/ (Fresh /\ "rt" \in Parts /\ TakesPassword(cont) /\ cont \in RtConts(key) /\ UseWrongPassword)
   \/ (Fresh /\ "rt" \in Parts /\ TakesUnwrapKey(cont) /\ cont \in RtConts(key) /\ UseWrongUnwrapKey)
   \/ (Fresh /\ "inject" \in Parts /\ cont \in InjectConts(key) /\ \E bad \in BadCls(key.kind) : InjectScalar(bad))
+  \/ (Fresh /\ "inject" \in Parts /\ key.kind \in {"sm2", "ecdsa", "ecdsa384", "ecdsa521"} /\ Reencode)
   \/ (status.t # "none" /\ outcome = "-" /\ \E o \in Outcomes : DoParse(o))
 Spec == Init /\ [][Next]_kcvars
 =============================================================================
